@@ -121,12 +121,27 @@ def run_tlc(module, cfg, outdir, tag, workers=1, xmx="3g", timeout=1800, env_ext
     return p.returncode, out
 
 
+EDGE_CAP_PER_PROCESS = 400000    # edges kept per TLC process (the full count is still reported)
+
+
 def parse_mc(outfile):
-    """-> dict(states_generated, distinct, depth, scen={id: raw}, edges=[(sid, hist)], error)"""
-    r = dict(generated=0, distinct=0, depth=0, scen={}, edges=[], error=None, violated=None, mv=[])
+    """-> dict(states_generated, distinct, depth, scen={id: raw}, edges=[(sid, hist)], error)
+    If a process printed more than EDGE_CAP_PER_PROCESS edges, a deterministic subsample (by line
+    hash) is kept, so that memory stays bounded in the thorough tier; nedges is the true count."""
+    import zlib
+    r = dict(generated=0, distinct=0, depth=0, scen={}, edges=[], error=None, violated=None, mv=[], nedges=0)
+    total = 0
+    with open(outfile, "rb") as f:
+        for raw in f:
+            if raw.startswith(b'<<"E"'):
+                total += 1
+    keep_mod = 1 if total <= EDGE_CAP_PER_PROCESS else -(-total // EDGE_CAP_PER_PROCESS)
+    r["nedges"] = total
     with open(outfile, errors="replace") as f:
         for line in f:
             if line.startswith('<<"E"'):
+                if keep_mod > 1 and zlib.crc32(line.encode()) % keep_mod:
+                    continue
                 m = EDGE_RE.match(line)
                 if m:
                     h = [int(x) for x in m.group(2).split(",") if x.strip()]
@@ -173,13 +188,14 @@ def model_check(module, consts, outdir, tag, parts, invariants=("TablesAgree",),
 
     with ThreadPoolExecutor(max_workers=min(parts, NCPU)) as ex:
         results = list(ex.map(one, range(parts)))
-    tot = dict(generated=0, distinct=0, depth=0, scen={}, edges=[], errors=[], violated=[], outs=[], mv=[])
+    tot = dict(generated=0, distinct=0, depth=0, scen={}, edges=[], errors=[], violated=[], outs=[], mv=[], nedges=0)
     for r in results:
         tot["generated"] += r["generated"]
         tot["distinct"] += r["distinct"]
         tot["depth"] = max(tot["depth"], r["depth"])
         tot["scen"].update(r["scen"])
         tot["edges"] += r["edges"]
+        tot["nedges"] += r["nedges"]
         tot["mv"] += r["mv"]
         tot["outs"].append(r["out"])
         if r["violated"]:
